@@ -50,14 +50,15 @@ var docFlash = map[int64]string{
 var docOrientation = map[int64]string{1: "Horizontal", 2: "Mirror horizontal", 3: "Rotate 180", 4: "Mirror vertical",
 	5: "Mirror horizontal and rotate 270 CW", 6: "Rotate 90 CW", 7: "Mirror horizontal and rotate 90 CW", 8: "Rotate 270 CW"}
 
-// ExifTool EXIF Compression (well-known rows)
+// ExifTool EXIF Compression (every row of the table)
 var docCompression = map[int64]string{1: "Uncompressed", 2: "CCITT 1D", 3: "T4/Group 3 Fax", 4: "T6/Group 4 Fax", 5: "LZW", 6: "JPEG (old-style)", 7: "JPEG",
 	8: "Adobe Deflate", 9: "JBIG B&W", 10: "JBIG Color", 99: "JPEG", 262: "Kodak 262", 32766: "Next", 32767: "Sony ARW Compressed", 32769: "Packed RAW",
 	32770: "Samsung SRW Compressed", 32771: "CCIRLEW", 32772: "Samsung SRW Compressed 2", 32773: "PackBits", 32809: "Thunderscan", 32867: "Kodak KDC Compressed",
 	32895: "IT8CTPAD", 32896: "IT8LW", 32897: "IT8MP", 32898: "IT8BL", 32908: "PixarFilm", 32909: "PixarLog", 32946: "Deflate", 32947: "DCS",
 	33003: "Aperio JPEG 2000 YCbCr", 33005: "Aperio JPEG 2000 RGB", 34661: "JBIG", 34676: "SGILog", 34677: "SGILog24", 34712: "JPEG 2000",
 	34713: "Nikon NEF Compressed", 34715: "JBIG2 TIFF FX", 34887: "ESRI Lerc", 34892: "Lossy JPEG", 34925: "LZMA2", 34926: "Zstd", 34927: "WebP",
-	34933: "PNG", 34934: "JPEG XR", 65000: "Kodak DCR Compressed"}
+	34933: "PNG", 34934: "JPEG XR", 65000: "Kodak DCR Compressed", 65535: "Pentax PEF Compressed",
+	34718: "Microsoft Document Imaging (MDI) Binary Level Codec", 34719: "Microsoft Document Imaging (MDI) Progressive Transform Codec", 34720: "Microsoft Document Imaging (MDI) Vector"}
 
 // meta/canon doc comments
 var docCanonContinuousDrive = map[int64]string{0: "Single", 1: "Continuous", 2: "Movie", 3: "Continuous, Speed Priority", 4: "Continuous, Low", 5: "Continuous, High",
